@@ -140,15 +140,18 @@ func jsFlds(l []fld, present bool) any {
 // ---------- fake clock and rng ----------
 
 type fakeClock struct {
-	mu sync.Mutex
-	n  int64
+	mu     sync.Mutex
+	n      int64
+	frozen bool // while set, readings repeat and are not counted (construction with initial records)
 }
 
 func (c *fakeClock) Now() time.Time {
 	c.mu.Lock()
 	defer c.mu.Unlock()
 	t := time.Unix(0, 1000+10*c.n)
-	c.n++
+	if !c.frozen {
+		c.n++
+	}
 	return t
 }
 
@@ -359,6 +362,8 @@ type fwo struct {
 	create, createdCb, genID, idCb bool
 	moreUpdate                     []fld
 	hasMoreUpdate                  bool
+	xtime                          *time.Time // an explicit write time given exactly (boundary times: c04extra.go); overrides time
+	viaPaths                       bool       // pass the masks through the ...Paths variants of the options (same meaning)
 }
 
 func (o *fwo) coq() string {
@@ -369,7 +374,7 @@ func (o *fwo) coq() string {
 		return vcoq.Some(s())
 	}
 	return vcoq.App("mkFWO'",
-		vcoq.OptZ(o.time),
+		o.coqTime(),
 		coqOptFlds(o.update, o.hasUpdate), coqOptFlds(o.reset, o.hasReset), coqOptFlds(o.more, o.hasMore),
 		vcoq.Bool(o.allWritable), coqOptMsg(o.expected), vcoq.Bool(o.expectAbsent),
 		opt(o.check != nil, func() string { return o.check.coq() }), vcoq.Bool(o.allowMissing),
@@ -379,7 +384,9 @@ func (o *fwo) coq() string {
 }
 func (o *fwo) js() any {
 	m := map[string]any{}
-	if o.time != nil {
+	if o.xtime != nil {
+		m["write_time"] = exactNanos(*o.xtime) + " ns since the Unix epoch (" + o.xtime.UTC().Format(time.RFC3339Nano) + ")"
+	} else if o.time != nil {
 		m["write_time"] = *o.time
 	}
 	if o.hasUpdate {
@@ -427,6 +434,9 @@ func (o *fwo) js() any {
 	if o.idCb {
 		m["id_cb"] = true
 	}
+	if o.viaPaths {
+		m["masks_given_as"] = "With...Paths options"
+	}
 	return m
 }
 
@@ -437,20 +447,38 @@ type cbLog struct {
 
 func (o *fwo) opts(cb *cbLog) []resource.WriteOption {
 	var out []resource.WriteOption
-	if o.time != nil {
+	if o.xtime != nil {
+		out = append(out, resource.WithWriteTime(*o.xtime))
+	} else if o.time != nil {
 		out = append(out, resource.WithWriteTime(time.Unix(0, *o.time)))
 	}
-	if o.hasUpdate {
-		out = append(out, resource.WithUpdateMask(maskOf(o.update)))
-	}
-	if o.hasMoreUpdate {
-		out = append(out, resource.WithMoreUpdateMask(maskOf(o.moreUpdate)))
-	}
-	if o.hasReset {
-		out = append(out, resource.WithResetMask(maskOf(o.reset)))
-	}
-	if o.hasMore {
-		out = append(out, resource.WithMoreWritableFields(maskOf(o.more)))
+	if o.viaPaths {
+		// WithUpdatePaths / WithMoreUpdatePaths / WithResetPaths / WithMoreWritablePaths build the same masks
+		if o.hasUpdate {
+			out = append(out, resource.WithUpdatePaths(maskOf(o.update).Paths...))
+		}
+		if o.hasMoreUpdate {
+			out = append(out, resource.WithMoreUpdatePaths(maskOf(o.moreUpdate).Paths...))
+		}
+		if o.hasReset {
+			out = append(out, resource.WithResetPaths(maskOf(o.reset).Paths...))
+		}
+		if o.hasMore {
+			out = append(out, resource.WithMoreWritablePaths(maskOf(o.more).Paths...))
+		}
+	} else {
+		if o.hasUpdate {
+			out = append(out, resource.WithUpdateMask(maskOf(o.update)))
+		}
+		if o.hasMoreUpdate {
+			out = append(out, resource.WithMoreUpdateMask(maskOf(o.moreUpdate)))
+		}
+		if o.hasReset {
+			out = append(out, resource.WithResetMask(maskOf(o.reset)))
+		}
+		if o.hasMore {
+			out = append(out, resource.WithMoreWritableFields(maskOf(o.more)))
+		}
 	}
 	if o.allWritable {
 		out = append(out, resource.WithAllFieldsWritable())
@@ -837,6 +865,7 @@ func (g *gen) wopts(forDelete bool) *fwo {
 			o.check.kind = 0
 		}
 	}
+	o.viaPaths = r.Chance(25)
 	return o
 }
 func (g *gen) cands(force bool) [][]byte {
@@ -1110,6 +1139,8 @@ func genC01(o *vcoq.Out, r *vcoq.Rand, tier string) error {
 		coq, js, nt, tags := g.valueSeq(r.Range(3, 16))
 		o.Add(vcoq.Case{Coq: coq, Key: coq, NonTrivial: nt, Tags: tags, JSON: js})
 	}
+	// covering design over pairs (and random triples / quadruples) of write options: c01extra.go
+	g.optionSubsetCases(o, tier)
 	return nil
 }
 
@@ -1241,13 +1272,14 @@ type ochange struct {
 	kind       int64
 	old, new_  *fmsg
 	seed, last bool
+	tx         string // the change time as exact nanoseconds since the epoch (decimal), when t cannot hold it
 }
 
 func coqOChange(c ochange) string {
-	return vcoq.App("mkOC", vcoq.Str(c.id), vcoq.Z(c.t), vcoq.Z(c.kind), coqOptMsg(c.old), coqOptMsg(c.new_), vcoq.Bool(c.seed), vcoq.Bool(c.last))
+	return vcoq.App("mkOC", vcoq.Str(c.id), c.coqTime(), vcoq.Z(c.kind), coqOptMsg(c.old), coqOptMsg(c.new_), vcoq.Bool(c.seed), vcoq.Bool(c.last))
 }
 func jsOChange(c ochange) any {
-	return map[string]any{"id": c.id, "time": c.t, "kind": c.kind, "old": jsMsg(c.old), "new": jsMsg(c.new_), "seed": c.seed, "last_seed": c.last}
+	return map[string]any{"id": c.id, "time": c.jsTime(), "kind": c.kind, "old": jsMsg(c.old), "new": jsMsg(c.new_), "seed": c.seed, "last_seed": c.last}
 }
 func kindCode(t types.ChangeType) int64 {
 	switch t {
@@ -1671,6 +1703,9 @@ func genC04(o *vcoq.Out, r *vcoq.Rand, tier string) error {
 		}
 		g.streamCase(o, eq, ro, nb, r.Range(0, 10), tags)
 	}
+	// directed families (equivalence x read mask x masked-out writes, boundary write times, several
+	// subscribers with different masks): c04extra.go
+	g.directedC04(o, tier)
 	return nil
 }
 
